@@ -43,7 +43,7 @@ class LoopBudgetExceeded(Exception):
     pass
 
 
-class CaseTimeout(Exception):
+class CaseTimeout(BaseException):          # not an Exception: no `except Exception` of a property module may turn the watchdog into a verdict
     pass
 
 
@@ -483,9 +483,9 @@ def safe_case(fn):
             ctx.fail('predicate', 'completes (a while-loop of the package exceeded the per-case iteration budget)', str(e).split(' executed')[0],
                      dict(function=fn.__module__ + '.' + fn.__qualname__, args=jsonable(a), kwargs=jsonable(k)), str(e))
             return None
-        except Exception as e:
+        except (Exception, CaseTimeout) as e:
             ctx.harness_exceptions += 1
-            where = _raised_in_package(e.__traceback__)
+            where = None if isinstance(e, CaseTimeout) else _raised_in_package(e.__traceback__)
             if where:
                 ctx.pkg_exceptions += 1
                 ctx.pkg_exception_sites[where] = ctx.pkg_exception_sites.get(where, 0) + 1
